@@ -10,6 +10,7 @@ import kneeliverse.metrics as metrics
 import kneeliverse.linear_fit as lf
 import kneeliverse.evaluation as evaluation
 
+np.seterr(all='ignore')
 EPS = float(np.finfo(float).eps)
 
 DIST = {'shortest': rdp.Distance.shortest, 'perpendicular': rdp.Distance.perpendicular}
